@@ -144,35 +144,35 @@ macro_rules! hrx { ($name:ident, $ri:expr, $unw:expr) => {
     #[kani::unwind($unw)]
     fn $name() { rx_windows_step($ri) }
 }; }
-//@h id=rx_windows_r0 props=C10 tier=quick build=dev-eu868 cost=90 timeout=1500
+//@h id=rx_windows_r0 props=C10,C04 tier=quick build=dev-eu868 cost=90 timeout=1500
 //@bounds EU868: arbitrary plan and configuration under the invariants (every uplink DR, RX1 offset 0..=5, RX2 overrides, RX1 delay 1..=15 s, DlChannel remaps); RNG streams of <= 3 draws
 //@encodes Mac::send, Mac::rx_windows, build_rf_config, rx2_rf_config, get_rx_delay, get_rxc_config, EU868Region::get_rx_datarate, DEFAULT_RX2_FREQ
 //@assumes reference RX1 tables and RX2 defaults transcribed from RP002-1.0.x
 hrx!(rx_windows_r0, 0, 74);
-//@h id=rx_windows_us props=C10 tier=quick build=dev-us915 cost=120 timeout=1800
+//@h id=rx_windows_us props=C10,C04 tier=quick build=dev-us915 cost=120 timeout=1800
 //@bounds US915: arbitrary mask/join bookkeeping/configuration (uplink DR0..4, RX1 offset 0..=3, all 72 channels)
 //@assumes reference RX1 tables and RX2 defaults transcribed from RP002-1.0.x
 hrx!(rx_windows_us, 0, 84);
-//@h id=rx_windows_in865 props=C10 tier=quick build=dev-in865 cost=90 timeout=1500
+//@h id=rx_windows_in865 props=C10,C04 tier=quick build=dev-in865 cost=90 timeout=1500
 //@bounds IN865: every uplink DR x RX1 offset 0..=7 (offsets 6 and 7 are effective negative offsets)
 //@assumes reference RX1 tables and RX2 defaults transcribed from RP002-1.0.x
 hrx!(rx_windows_in865, 0, 74);
-//@h id=rx_windows_eu433 props=C10 tier=thorough build=dev-eu433 cost=90 timeout=1500
+//@h id=rx_windows_eu433 props=C10,C04 tier=thorough build=dev-eu433 cost=90 timeout=1500
 //@bounds EU433
 hrx!(rx_windows_eu433, 0, 74);
-//@h id=rx_windows_au915 props=C10 tier=thorough build=dev-au915 cost=120 timeout=1800
+//@h id=rx_windows_au915 props=C10,C04 tier=thorough build=dev-au915 cost=120 timeout=1800
 //@bounds AU915
 hrx!(rx_windows_au915, 0, 84);
-//@h id=rx_windows_as923_1 props=C10 tier=quick build=dev-as923 cost=90 timeout=1500
+//@h id=rx_windows_as923_1 props=C10,C04 tier=quick build=dev-as923 cost=90 timeout=1500
 //@bounds AS923-1
 hrx!(rx_windows_as923_1, 0, 74);
-//@h id=rx_windows_as923_2 props=C10 tier=thorough build=dev-as923 cost=90 timeout=1500
+//@h id=rx_windows_as923_2 props=C10,C04 tier=thorough build=dev-as923 cost=90 timeout=1500
 //@bounds AS923-2
 hrx!(rx_windows_as923_2, 1, 74);
-//@h id=rx_windows_as923_3 props=C10 tier=quick build=dev-as923 cost=90 timeout=1500
+//@h id=rx_windows_as923_3 props=C10,C04 tier=quick build=dev-as923 cost=90 timeout=1500
 //@bounds AS923-3
 hrx!(rx_windows_as923_3, 2, 74);
-//@h id=rx_windows_as923_4 props=C10 tier=thorough build=dev-as923 cost=90 timeout=1500
+//@h id=rx_windows_as923_4 props=C10,C04 tier=thorough build=dev-as923 cost=90 timeout=1500
 //@bounds AS923-4
 hrx!(rx_windows_as923_4, 3, 74);
 
@@ -212,4 +212,66 @@ fn rxc_not_joined() {
     crate::vcheck!(matches!((&mac.state, joining), (State::Otaa(_), true) | (State::Unjoined, false)) && dl.is_empty(),
         "C07: a frame heard by a device without a session changes nothing");
     kani::cover!(joining && n == 17, "joining, 17-byte frame");
+}
+
+//@h id=mac_session_api props=C20,C06,C12 tier=quick build=dev-eu868 cost=30 timeout=900
+//@bounds Mac::{set_session, get_session, get_session_mut, get_fcnt_up, get_session_keys, is_joined, join_abp} for an arbitrary session (arbitrary keys, address, both counters, ADR counter, owed ACK, up to three pending answer bytes) on a device in any activation state: a restored session is installed and handed back unchanged in every field (so a restored device continues with the stored counters), ABP activation starts a session with the given keys and address and both counters fresh
+//@encodes Mac::{set_session, get_session, get_session_mut, get_fcnt_up, get_session_keys, is_joined, join_abp}, Session::new
+#[kani::proof]
+#[kani::unwind(20)]
+fn mac_session_api() {
+    use crate::mac::session::verif_kani_lorawan_device_session_rx::{any_session, session_same};
+    use lorawan::default_crypto::model;
+    crate::mac::verif_kani_lorawan_device_mac_common::vinit();
+    let mut mac = Mac::new(region::Configuration::new(rt::region_ut(0)), kani::any(), kani::any());
+    match kani::any::<u8>() % 3 {
+        0 => {}
+        1 => {
+            mac.state = State::Otaa(otaa::Otaa::new(NetworkCredentials::new(
+                crate::AppEui::from(kani::any::<[u8; 8]>()),
+                crate::DevEui::from(kani::any::<[u8; 8]>()),
+                crate::AppKey::from(kani::any::<[u8; 16]>()),
+            )))
+        }
+        _ => mac.state = State::Joined(any_session(&[])),
+    }
+    if kani::any() {
+        // ---- restore
+        let s = any_session(&[0x03, 0x08]);
+        let keep = s.clone();
+        mac.set_session(s);
+        crate::vcheck!(mac.is_joined(), "C20: a device restored from a session is joined");
+        match mac.get_session() {
+            Some(got) => crate::vcheck!(session_same(got, &keep), "C20: the restored session equals the stored one in every field"),
+            None => crate::vcheck!(false, "C20: the restored session is available"),
+        }
+        crate::vcheck!(mac.get_fcnt_up() == Some(keep.fcnt_up), "C20/C06: a restored device continues with the stored uplink counter (no rewind)");
+        match mac.get_session_mut() {
+            Some(got) => crate::vcheck!(session_same(got, &keep), "C20: the restored session equals the stored one in every field (mutable view)"),
+            None => crate::vcheck!(false, "C20: the restored session is available"),
+        }
+        match mac.get_session_keys() {
+            Some(k) => crate::vcheck!(model::pack(k.nwkskey.as_ref()) == model::pack(keep.nwkskey.as_ref())
+                && model::pack(k.appskey.as_ref()) == model::pack(keep.appskey.as_ref()) && k.devaddr == keep.devaddr,
+                "C20: session keys and address are those of the stored session"),
+            None => crate::vcheck!(false, "C20: session keys available after restore"),
+        }
+        kani::cover!(keep.fcnt_down().is_none() && keep.fcnt_up == u32::MAX, "restored at counter exhaustion, no downlink yet");
+    } else {
+        // ---- activation by personalisation
+        let (nk, ak, addr): ([u8; 16], [u8; 16], [u8; 4]) = (kani::any(), kani::any(), kani::any());
+        mac.join_abp(NwkSKey::from(nk), AppSKey::from(ak), DevAddr::from_wire_bytes(addr));
+        match mac.get_session() {
+            Some(s) => {
+                crate::vcheck!(model::pack(s.nwkskey.as_ref()) == model::pack(&nk) && model::pack(s.appskey.as_ref()) == model::pack(&ak),
+                    "C12/C06: an ABP session uses the network and application session keys given, each in its own role");
+                crate::vcheck!(s.devaddr == DevAddr::from_wire_bytes(addr), "C12: an ABP session carries the address given");
+                crate::vcheck!(s.fcnt_up == 0 && s.fcnt_down().is_none() && s.adr_ack_cnt == 0 && !s.confirmed
+                    && s.uplink.mac_commands().is_empty() && !s.uplink.confirms_downlink(),
+                    "C06/C12: a new session starts with fresh counters, nothing pending and no ACK owed");
+            }
+            None => crate::vcheck!(false, "C06: ABP activation yields a session"),
+        }
+        kani::cover!(true, "abp");
+    }
 }
